@@ -1574,3 +1574,30 @@ Lemma digits_val_app a b : forall acc,
 Proof.
   induction a as [|c a IH]; intro acc; [reflexivity|]. cbn. destruct (is_dig c); [apply IH|reflexivity].
 Qed.
+
+(* ------------------------------------------------------------------ the await step waits for all *)
+(* C08: one weight step of handleHooks collects EVERY call awaited at that point - those already
+   pending there and those it has just started with their await at this very point - whatever the
+   oracle says about which of them fail and whatever the hook tasks of the weight do; none of them
+   is left in (or silently dropped from) the pending set *)
+Lemma do_weight_await_all hooks orc m w s s' t f c i :
+  do_weight hooks orc m w s = (s', t, f, c) ->
+  (In ((m, w), i) (e_pend s) \/
+   exists h, In h hooks /\ is_call h = true /\ h_trig h = (m, w) /\ h_await h = (m, w) /\ i = new_inst orc h) ->
+  In (TCollect i (m, w)) t /\ ~ In ((m, w), i) (e_pend s') /\
+  (forall q j, In (q, j) (e_pend s') -> q <> (m, w)).
+Proof.
+  intros H Hin. apply do_weight_shape in H. destruct H as (Hp & _ & _ & _ & _ & t3 & -> & _).
+  assert (Hin1 : In ((m, w), i) (dw_pend1 hooks orc m w s)).
+  { unfold dw_pend1. apply in_or_app. destruct Hin as [Hin|(h & Hh & Hc & Ht & Ha & ->)]; [left; exact Hin|].
+    right. apply in_map_iff. exists h. split; [rewrite Ha; reflexivity|].
+    unfold dw_calls. apply filter_In. split; [apply hooks_at_in; auto|exact Hc]. }
+  split; [|split].
+  - apply in_or_app. right. apply in_or_app. left. unfold dw_t2, dw_coll.
+    apply in_map_iff. exists i. split; [reflexivity|]. apply in_map_iff. exists ((m, w), i). split; [reflexivity|].
+    apply filter_In. split; [exact Hin1|]. unfold at_point. cbn. apply point_eqb_refl.
+  - rewrite Hp. unfold dw_pend2. intro Hx. apply filter_In in Hx. destruct Hx as [_ Hx].
+    unfold at_point in Hx. cbn in Hx. rewrite point_eqb_refl in Hx. discriminate.
+  - intros q j Hx. rewrite Hp in Hx. unfold dw_pend2 in Hx. apply filter_In in Hx. destruct Hx as [_ Hx].
+    unfold at_point in Hx. cbn in Hx. intros ->. rewrite point_eqb_refl in Hx. discriminate.
+Qed.
